@@ -238,6 +238,37 @@ def report_violations(mod, prop, agg_viol, gen_case, known, max_reports=6):
                     ok = True
                     path = core.write_replay(prop, small, same_violation(cres, v, prop, known), cres["digest"], tag)
                     lines.append("note: history of class=%s differs between this process and a fresh interpreter (state kept between calls); replay digest taken from fresh interpreters" % v["class"])
+            if not ok and same_violation(cres, v, prop, known) is None:
+                # the minimised case fails here but not in a fresh interpreter: this long-lived process carries state
+                # left by the code under test, so the minimiser dropped steps that a fresh interpreter needs.
+                # Re-minimise with fresh interpreters as the judge (bounded), starting from the unminimised case.
+                c1 = child_exec(prop, case)
+                if same_violation(c1, v, prop, known) is not None:
+                    budget = [40]
+
+                    def fails_fresh(c):
+                        if budget[0] <= 0:
+                            return False
+                        budget[0] -= 1
+                        try:
+                            return same_violation(child_exec(prop, c), v, prop, known) is not None
+                        except core.HarnessError:
+                            return False
+
+                    try:
+                        small2 = mod.shrink(case, fails_fresh)
+                    except Exception:
+                        small2 = case
+                    ca, cb = child_exec(prop, small2), child_exec(prop, small2)
+                    if same_violation(ca, v, prop, known) is None or ca["digest"] != cb["digest"]:
+                        small2 = case
+                        ca, cb = c1, child_exec(prop, case)
+                    if same_violation(ca, v, prop, known) is not None and ca["digest"] == cb["digest"]:
+                        ok = True
+                        small = small2
+                        tag = "%s-%s" % (v["class"].replace("/", "_"), core.digest(small)[:8])
+                        path = core.write_replay(prop, small, same_violation(ca, v, prop, known), ca["digest"], tag)
+                        lines.append("note: class=%s needs a fresh interpreter to reproduce (state kept between calls in this process); minimised against fresh interpreters" % v["class"])
         except core.HarnessError as e:
             ok = False
             lines.append("HARNESS-ERROR: replay child failed: %s" % e)
